@@ -50,7 +50,11 @@ def _merge_stubs_overloads(obj: Module | Class, stubs: Module | Class) -> None:
         if overloads:
             # The member can be missing, or be an alias that cannot be resolved.
             with suppress(KeyError, AliasResolutionError, CyclicAliasError):
-                obj.get_member(function_name).overloads = overloads
+                member = obj.get_member(function_name)
+                # Overloads only make sense on a function: a class has a mapping
+                # of the same name (the overloads of its methods), which must survive.
+                if member.is_function:
+                    member.overloads = overloads
         del stubs.overloads[function_name]
 
 
